@@ -20,7 +20,7 @@
 (* of those classes is a behaviour the specification does not admit.       *)
 (*                                                                         *)
 (* Level: exploration.  Spans are addressed on a grid (i/G of the file),   *)
-(* token classes by {first, last, all} occurrences; see harness/cmd/vmut/  *)
+(* token classes by {first, last, all} occurrences and one at a time (n-th); see harness/cmd/vmut/  *)
 (* mutate.go (applyOp) for the byte-level meaning of every operator.  The  *)
 (* harness clamps every mutated file to MaxOut bytes.                      *)
 (***************************************************************************)
@@ -32,6 +32,7 @@ CONSTANTS G,            \* span grid of the fine alphabet (depth-1 plans): posit
           Sixteenths,   \* Truncate(i/16): the i of the fine alphabet
           HeadWords,    \* 32-bit words of the first/last 64 bytes edited by HeaderEdit (fine alphabet)
           NestDepths,   \* Nest(n)
+          Nth,          \* ReplaceTokenClass on the n-th occurrence alone (0-based): the n of the fine alphabet
           MaxDepth      \* 1: plans of one operator; 2: also every pair over the coarse alphabet
 
 \* one shape for every operator, so that plans are plain JSON: integers i,j,k and strings x,y,z
@@ -44,8 +45,12 @@ TokenRepl ==  \* ReplaceTokenClass(c -> r): token class c, replacement r
    open    |-> {"none", "dup", "flip", "nul"},                \* { [ < (   removed / doubled / closing / NUL
    close   |-> {"none", "dup", "flip", "nul"},                \* } ] > )
    newline |-> {"cr", "crlf", "none", "nul", "longline"},     \* LF -> CR, CRLF, joined lines, NUL, very long line
-   sep     |-> {"none", "dup", "nul", "badutf8"}]             \* : = ,   removed / doubled / NUL / invalid UTF-8
+   sep     |-> {"none", "dup", "nul", "badutf8"},             \* : = ,   removed / doubled / NUL / invalid UTF-8
+   slash   |-> {"none", "dup", "nul"},                        \* / \   removed / doubled / NUL
+   word    |-> {"none", "dup", "longline"}]                   \* run of letters, digits, _ - .  (a key, a name, a version) blanked / doubled / 4096 bytes
 Classes == DOMAIN TokenRepl
+\* one occurrence at a time (the n-th token of the class): what is done to it
+NthRepl(c) == IF c = "word" THEN {"none", "longline"} ELSE IF c = "digits" THEN {"none", "digits20"} ELSE {"none"}
 
 NestKinds == {"json-array", "json-object", "xml", "yaml-indent", "toml-table", "toml-inline", "paren"}
 ZipFields == [lfh  |-> {"method", "crc", "csize", "usize", "namelen", "extralen"},
@@ -62,6 +67,7 @@ FineOps ==
   \cup {Op("DupSpan", s[1], s[2], G, "", "", "") : s \in Spans(G)}
   \cup {Op("SwapSpans", t[1], t[2], t[3], "", "", ToString(GSwap)) : t \in Triples(GSwap)}
   \cup UNION {{Op("ReplaceTokenClass", 0, 0, 0, c, r, s) : r \in TokenRepl[c], s \in Sels} : c \in Classes}
+  \cup UNION {{Op("ReplaceTokenClass", n, 0, 0, c, r, "nth") : n \in Nth, r \in NthRepl(c)} : c \in Classes}
   \cup {Op("Empty", 0, 0, 0, "", "", "")}
   \cup {Op("WhitespaceOnly", 0, 0, 0, w, "", "") : w \in {"spaces", "newlines", "crlf-tabs"}}
   \cup {Op("Nest", n, 0, 0, k, m, "") : n \in NestDepths, k \in NestKinds, m \in {"bare", "wrap"}}
@@ -76,6 +82,7 @@ CoarseOps ==
   \cup {Op("SwapSpans", 0, 1, 2, "", "", "2")}
   \cup {Op("ReplaceTokenClass", 0, 0, 0, c, "none", "all") : c \in Classes}
   \cup {Op("ReplaceTokenClass", 0, 0, 0, c, "nul", "all") : c \in {"quote", "open", "close", "sep"}}
+  \cup {Op("ReplaceTokenClass", n, 0, 0, "word", "none", "nth") : n \in {0, 1, 2, 3}}
   \cup {Op("ReplaceTokenClass", 0, 0, 0, "digits", "digits20", "all"), Op("ReplaceTokenClass", 0, 0, 0, "newline", "longline", "first")}
   \cup {Op("Nest", 1000, 0, 0, k, "wrap", "") : k \in {"json-array", "json-object", "xml", "toml-inline"}}
   \cup {Op("HeaderEdit", w, 0, 0, "head", "ones", "") : w \in {0, 1, 2, 4, 8}}
